@@ -20,11 +20,11 @@ echo "# test suite:"; $T "$WT" test | tail -1
 PYTHONHASHSEED=0 timeout 300 $T "$WT" py demo.py >/dev/null 2>"$LOG.err"; RC_C=$?; echo "demo (C build) rc=$RC_C: $(tail -1 "$LOG.err" | cut -c1-300)"
 PYTHONHASHSEED=0 PURE=1 timeout 300 $T "$WT" py demo.py >/dev/null 2>"$LOG.err"; RC_P=$?; echo "demo (PURE_PYTHON) rc=$RC_P: $(tail -1 "$LOG.err" | cut -c1-300)"
 echo "## pristine tree"
-git -C "$WT" stash -q
+git -C "$WT" apply -R "$LOG.patch"   # not `git stash`: the stash is shared by all worktrees of the repository
 $T "$WT" build
 PYTHONHASHSEED=0 timeout 300 $T "$WT" py demo.py >/dev/null 2>&1; RC0_C=$?; echo "demo (C build) rc=$RC0_C"
 PYTHONHASHSEED=0 PURE=1 timeout 300 $T "$WT" py demo.py >/dev/null 2>&1; RC0_P=$?; echo "demo (PURE_PYTHON) rc=$RC0_P"
-git -C "$WT" stash pop -q
+git -C "$WT" apply "$LOG.patch"
 echo "RC changed: c=$RC_C py=$RC_P ; pristine: c=$RC0_C py=$RC0_P"
 } > "$LOG" 2>&1
 cat "$LOG"
